@@ -602,3 +602,15 @@ pub fn stub_flush_whole_bytes(bw: &mut crate::bit_writer::BitWriter, data_buffer
         bw.bits_in -= 8;
     }
 }
+
+/// TokenPredictorParameters -> the flat vector understood by verif_export::from_flat in both builds (hash kind 6: the model hash)
+pub fn flat_predictor_params(p: &TokenPredictorParameters) -> [u32; 19] {
+    let (lazy, gl, ml) = match p.matching_type { MatchingType::Greedy => (0u32, 0u32, 0u32), MatchingType::Lazy { good_length, max_lazy } => (1, good_length as u32, max_lazy as u32) };
+    let (pk, pl) = match p.add_policy {
+        DictionaryAddPolicy::AddAll => (0u32, 0u32), DictionaryAddPolicy::AddFirst(v) => (1, v as u32),
+        DictionaryAddPolicy::AddFirstAndLast(v) => (2, v as u32), DictionaryAddPolicy::AddFirstExcept4kBoundary => (3, 0),
+        DictionaryAddPolicy::AddFirstWith32KBoundary => (4, 0),
+    };
+    [0, if p.strategy == PreflateStrategy::Default { 0 } else { 1 }, p.window_bits, p.nice_length, pk, pl, p.max_token_count as u32,
+     p.zlib_compatible as u32, p.max_dist_3_matches as u32, lazy, gl, ml, p.max_chain, p.min_len, 6, 0, 0, p.very_far_matches_detected as u32, p.matches_to_start_detected as u32]
+}
